@@ -26,8 +26,154 @@ def _error_codes(func):
     return [c for _, c in sorted(res)]
 
 
+_MUTATORS = {'append', 'add', 'update', 'setdefault', 'pop', 'popitem', 'clear', 'extend', 'insert', 'remove', 'discard',
+             '__setitem__', '__setattr__', '__delitem__', 'set', 'put', 'store', 'remember', 'cache'}
+_DYNAMIC = {'getattr', 'setattr', 'hasattr', 'delattr', 'vars', 'globals', 'locals', 'eval', 'exec'}
+
+
+def _root(e):
+    while isinstance(e, (ast.Attribute, ast.Subscript, ast.Call)):
+        e = e.value if not isinstance(e, ast.Call) else e.func
+    return e.id if isinstance(e, ast.Name) else None
+
+
+def _state_facts(func):
+    """What in `func` can carry information from one request to the next.
+    -> (persistent_writes, channel_refs, dynamic)
+    persistent_writes: attribute/subscript targets of assignments/del and receivers of mutating method calls whose root
+        object outlives the request: `self`, a module global, or a local bound to something that is not freshly made
+        in this call (e.g. `channel = request.channel`); `global`/`nonlocal` declarations; setattr/delattr calls.
+        The request object itself (`request.auth_info = ...`, `request['Connection'] = ...`) is per request.
+    channel_refs: every maximal attribute chain that goes through `.channel` or `.server` (read or write)
+    dynamic: getattr/hasattr/vars/globals/__dict__ ... (state access that is not visible as an attribute chain)"""
+    params = [a.arg for a in func.args.args]
+    per_request = set(params[1:2]) if params[:1] == ['self'] else set()      # the `request` parameter
+    if func.name == 'authorize':
+        per_request = set(params[1:])          # auth_info: made by handle_request for this request
+    binds = {}
+    for n in ast.walk(func):
+        if isinstance(n, ast.Assign):
+            for t in n.targets:
+                for el in (t.elts if isinstance(t, (ast.Tuple, ast.List)) else [t]):
+                    if isinstance(el, ast.Name):
+                        binds.setdefault(el.id, []).append(n.value if len(n.targets) == 1 and not isinstance(t, (ast.Tuple, ast.List)) else None)
+        elif isinstance(n, (ast.AugAssign, ast.AnnAssign)) and isinstance(n.target, ast.Name):
+            binds.setdefault(n.target.id, []).append(None)
+        elif isinstance(n, (ast.For, ast.With, ast.ExceptHandler, ast.NamedExpr)):
+            for m in ast.walk(n.target if isinstance(n, (ast.For, ast.NamedExpr)) else n):
+                if isinstance(m, ast.Name) and isinstance(m.ctx, ast.Store):
+                    binds.setdefault(m.id, []).append(None)
+    def fresh_value(v):
+        """the value is made in this call out of per-request data: a literal, or the result of calling a module-level
+        function / a method of a per-request or fresh object"""
+        if v is None:
+            return False
+        if isinstance(v, (ast.Constant, ast.List, ast.Dict, ast.Tuple, ast.Set, ast.JoinedStr, ast.BinOp, ast.Compare)):
+            return True
+        if isinstance(v, ast.Call):
+            r = _root(v.func)
+            if isinstance(v.func, ast.Name):
+                return v.func.id not in _DYNAMIC
+            return r is not None and r != 'self' and (r in per_request or fresh(r)) and 'channel' not in ast.unparse(v.func) \
+                and 'server' not in ast.unparse(v.func)
+        return False
+    seen = set()
+    def fresh(name):
+        if name in per_request:
+            return True
+        if name not in binds or name in seen:
+            return False
+        seen.add(name)
+        try:
+            return all(fresh_value(v) for v in binds[name])
+        finally:
+            seen.discard(name)
+    def persistent(e):
+        r = _root(e)
+        txt = ast.unparse(e)
+        if '.channel' in txt or '.server' in txt:
+            return True
+        return not (r is not None and fresh(r))
+    writes, chans, dyn = [], [], []
+    def target(t, lineno):
+        for el in (t.elts if isinstance(t, (ast.Tuple, ast.List)) else [t]):
+            if isinstance(el, (ast.Attribute, ast.Subscript)) and persistent(el):
+                writes.append((lineno, ast.unparse(el)))
+    inner = set()
+    for n in ast.walk(func):
+        if isinstance(n, ast.Assign):
+            for t in n.targets:
+                target(t, n.lineno)
+        elif isinstance(n, (ast.AugAssign, ast.AnnAssign)):
+            target(n.target, n.lineno)
+        elif isinstance(n, ast.Delete):
+            for t in n.targets:
+                target(t, n.lineno)
+        elif isinstance(n, (ast.Global, ast.Nonlocal)):
+            writes.append((n.lineno, '%s %s' % (type(n).__name__.lower(), ','.join(n.names))))
+        elif isinstance(n, ast.Call):
+            f = n.func
+            if isinstance(f, ast.Name) and f.id in _DYNAMIC:
+                dyn.append((n.lineno, ast.unparse(n)))
+            if isinstance(f, ast.Attribute) and f.attr in _MUTATORS and persistent(f.value):
+                writes.append((n.lineno, ast.unparse(f) + '()'))
+        if isinstance(n, ast.Attribute):
+            if n.attr in ('__dict__', '__class__'):
+                dyn.append((n.lineno, ast.unparse(n)))
+            for ch in ast.iter_child_nodes(n):
+                if isinstance(ch, ast.Attribute):
+                    inner.add(id(ch))
+    for n in ast.walk(func):
+        if isinstance(n, ast.Attribute) and id(n) not in inner:
+            txt = ast.unparse(n)
+            parts = txt.split('.')
+            if 'channel' in parts or 'server' in parts:
+                chans.append((n.lineno, txt))
+        if isinstance(n, ast.Name) and n.id in ('channel', 'server') and isinstance(n.ctx, ast.Load):
+            chans.append((n.lineno, n.id))
+    srt = lambda l: [t for _, t in sorted(set(l))]
+    return srt(writes), srt(chans), srt(dyn)
+
+
+def _lean_strs(l):
+    return '[%s]' % ', '.join(lean_str(x) for x in l)
+
+
+def _connection_state_tables(out):
+    """the state a decision could read from, or leave behind for, another request on the same connection"""
+    t = _tree('supervisor/medusa/auth_handler.py')
+    ht = _tree('supervisor/http.py')
+    out.append('-- state that outlives a request (the channel, the handler object, module globals): what the decision path')
+    out.append('-- writes to it, reads from it through `.channel`/`.server`, or reaches dynamically (getattr, __dict__, globals ...)')
+    for pref, tree, qual in (('hr', t, 'auth_handler.handle_request'), ('hu', t, 'auth_handler.handle_unauthorized'),
+                             ('mt', t, 'auth_handler.match'), ('az', ht, 'encrypted_dictionary_authorizer.authorize')):
+        w, c, d = _state_facts(find_func(tree, qual))
+        out.append('-- %s' % qual)
+        out.append('def %s_persistent_writes : List String := %s' % (pref, _lean_strs(w)))
+        out.append('def %s_channel_refs : List String := %s' % (pref, _lean_strs(c)))
+        out.append('def %s_dynamic : List String := %s' % (pref, _lean_strs(d)))
+    # handle_unauthorized: request.channel.set_terminator(None) -- the channel reads no further request
+    hu = find_func(t, 'auth_handler.handle_unauthorized')
+    stops = [n for n in ast.walk(hu) if isinstance(n, ast.Call) and ast.unparse(n.func) == 'request.channel.set_terminator'
+             and len(n.args) == 1 and isinstance(n.args[0], ast.Constant) and n.args[0].value is None]
+    out.append('/-- handle_unauthorized calls request.channel.set_terminator(None): after a 401 the channel collects, and never dispatches, whatever else arrives -/')
+    out.append('def unauthorized_stops_reading : Bool := %s' % ('true' if len(stops) == 1 else 'false'))
+    # which methods supervisor_auth_handler defines itself (everything else is medusa's auth_handler)
+    cls = [n for n in ht.body if isinstance(n, ast.ClassDef) and n.name == 'supervisor_auth_handler']
+    assert len(cls) == 1
+    out.append('def auth_subclass_bases : List String := %s' % _lean_strs([ast.unparse(b) for b in cls[0].bases]))
+    out.append('def auth_subclass_defines : List String := %s' % _lean_strs(sorted(
+        [n.name for n in cls[0].body if isinstance(n, (ast.FunctionDef, ast.AsyncFunctionDef))] +
+        [ast.unparse(tg) for n in cls[0].body if isinstance(n, ast.Assign) for tg in n.targets])))
+    base = [n for n in t.body if isinstance(n, ast.ClassDef) and n.name == 'auth_handler']
+    assert len(base) == 1
+    out.append('def auth_base_special_methods : List String := %s' % _lean_strs(sorted(
+        n.name for n in base[0].body if isinstance(n, ast.FunctionDef) and n.name.startswith('__') and n.name != '__init__')))
+
+
 def TABLES():
     out = []
+    _connection_state_tables(out)
     # ---- the Authorization regexp ------------------------------------------------------------
     t = _tree('supervisor/medusa/auth_handler.py')
     pat = flags = None
